@@ -298,3 +298,73 @@ func ZzC20ResendMany() {
 	}
 	verifrt.Reach("c20-end")
 }
+
+// ZzC20ResendIncoming: unconfirmed wallet transactions that do NOT spend
+// wallet coins are wallet transactions too: R is an incoming payment seen
+// unconfirmed (no wallet debits), X is a wallet send whose payment output goes
+// to a stranger, S spends that stranger's output back to the wallet (its only
+// link to X is an output that is not a wallet credit), C spends R's output. On
+// resynchronisation every one of them is offered, parents before children; a
+// rejected one is forgotten together with everything spending its outputs -
+// also through outputs that are not wallet credits.
+func ZzC20ResendIncoming() {
+	w := zzNewC20World()
+	recv2 := w.newAddress(waddrmgr.KeyScopeBIP0084, false)
+	r := zzPayTo(recv2, 400000, 3)
+	rec, err := wtxmgr.NewTxRecordFromMsgTx(r, time.Unix(1600000002, 0))
+	zzW(err)
+	zzW(walletdb.Update(w.db, func(tx walletdb.ReadWriteTx) error { return w.w.addRelevantTx(tx, rec, nil) }))
+	c, _ := w.spend(r, 0, 400000, w.change2, 15)
+	_, err = w.w.reliablyPublishTransaction(c, "")
+	zzW(err)
+	x, _ := w.spend(w.fund, 0, w.fundAmt, w.changeAddr, 17)
+	_, err = w.w.reliablyPublishTransaction(x, "")
+	zzW(err)
+	// S: spends X's payment output (index 0, a stranger's) and pays the wallet
+	recv3 := w.newAddress(waddrmgr.KeyScopeBIP0084, false)
+	s := wire.NewMsgTx(2)
+	s.AddTxIn(wire.NewTxIn(&wire.OutPoint{Hash: x.TxHash(), Index: 0}, nil, nil))
+	ps, err := txscript.PayToAddrScript(recv3)
+	zzW(err)
+	s.AddTxOut(wire.NewTxOut(900, ps))
+	s.LockTime = 777
+	_, err = w.w.reliablyPublishTransaction(s, "")
+	zzW(err)
+	hr, hc, hx, hs := r.TxHash(), c.TxHash(), x.TxHash(), s.TxHash()
+	verifrt.Assert(w.known(hr) && w.known(hc) && w.known(hx) && w.known(hs), "c20-setup-all-recorded")
+	rejR := verifrt.Choice(2, "reject-incoming") == 1
+	rejX := verifrt.Choice(2, "reject-x") == 1
+	w.chain.sent = nil
+	w.chain.sendFn = func(tx *wire.MsgTx) error {
+		h := tx.TxHash()
+		if (rejR && h == hr) || (rejX && h == hx) {
+			return zzRejection()
+		}
+		return nil
+	}
+	w.w.resendUnminedTxs()
+	w.chain.sendFn = nil
+	offered := map[chainhash.Hash]int{}
+	pos := map[chainhash.Hash]int{}
+	for k, mtx := range w.chain.sent {
+		offered[mtx.TxHash()]++
+		pos[mtx.TxHash()] = k
+	}
+	verifrt.Assert(offered[hr] == 1, "c20-unconfirmed-transaction-without-wallet-inputs-reoffered")
+	verifrt.Assert(offered[hx] == 1, "c20-every-unconfirmed-transaction-reoffered")
+	if !rejR {
+		verifrt.Assert(offered[hc] == 1 && pos[hr] < pos[hc], "c20-reoffered-parents-first")
+	}
+	if !rejX {
+		verifrt.Assert(offered[hs] == 1 && pos[hx] < pos[hs], "c20-reoffered-parents-first-through-a-non-credit-output")
+	}
+	verifrt.Assert(w.known(hr) == !rejR && w.known(hc) == !rejR, "c20-incoming-and-its-child-kept-iff-accepted")
+	verifrt.Assert(w.known(hx) == !rejX, "c20-resend-x-kept-iff-accepted")
+	verifrt.Assert(w.known(hs) == !rejX, "c20-descendant-through-a-non-credit-output-forgotten-with-its-parent")
+	if rejR || rejX {
+		verifrt.Reach("some-rejected")
+	} else {
+		verifrt.Reach("resent")
+	}
+	verifrt.Reach("c20-end")
+}
